@@ -149,6 +149,8 @@ func (w *worker) initPkg(pkg *ssa.Package) (err error) {
 	}()
 	old := ex.Lim.MaxSteps
 	ex.Lim.MaxSteps = 2_000_000_000
+	w.m.InInit = true
+	defer func() { w.m.InInit = false }()
 	w.m.call(nil, pkg.Func("init"), nil, token.NoPos)
 	ex.Lim.MaxSteps = old
 	return nil
